@@ -360,6 +360,14 @@ func init() {
 		}
 		return Slice{a: out}
 	}
+	intrinsics[zz+"Checkpoint"] = func(x *Exec, a []Value) Value {
+		x.checkpoints = append(x.checkpoints, cloneFNode(x.fs.root))
+		return x.intConst(int64(len(x.checkpoints) - 1))
+	}
+	intrinsics[zz+"Restore"] = func(x *Exec, a []Value) Value {
+		x.fs.root = cloneFNode(x.checkpoints[x.conc(a[0], "checkpoint id")])
+		return nil
+	}
 	intrinsics[zz+"Snapshot"] = func(x *Exec, a []Value) Value {
 		p := a[0].(Str)
 		n, _, _, ek := x.resolve(p)
@@ -378,6 +386,14 @@ func init() {
 		}
 		return x.snapEq(sa.n, sb.n, sa.path, ex)
 	}
+}
+
+func cloneFNode(n *FNode) *FNode {
+	c := &FNode{dir: n.dir, data: n.data[:len(n.data):len(n.data)], z: n.z, raw: n.raw}
+	for _, e := range n.ents {
+		c.ents = append(c.ents, &FEnt{name: e.name, node: cloneFNode(e.node)})
+	}
+	return c
 }
 
 type snapRec struct {
